@@ -199,6 +199,31 @@ pub fn run(rep: &mut Report) {
                 }
             }
         }
+        // targeted boundary of the first-try acceptance c1*u < 1: generator words around u = 1/c1 (u = k 2^-52, word = k << 12)
+        let mut rates: Vec<f64> = lambdas().into_iter().map(|x| x.1).collect();
+        for mm in 2..=300u64 {
+            rates.push((mm as f64 / (mm as f64 - 1.)).ln());
+        }
+        let mut nb = 0u64;
+        for lambda in rates {
+            let law = ExpRestricted01::new(lambda);
+            let c1 = lambda.exp_m1() / lambda;
+            let k0 = ((1. / c1) * (1u64 << 52) as f64) as u64;
+            for dk in 0..96u64 {
+                let k = (k0 + dk).saturating_sub(48).min((1u64 << 52) - 1);
+                let mut rng = Scripted { script: vec![k << 12, (k << 12) | 0xfff], pos: 0, fallback: rng_from(mix(&[seed, k, lambda.to_bits()])), consumed: 0 };
+                for _ in 0..2 {
+                    let x = law.sample(&mut rng);
+                    nb += 1;
+                    if !(0. ..1.).contains(&x) {
+                        rep.violation("C16/range", "scripted", format!("lambda={:e}: a generator word {:#x} (u = {} * 2^-52, next to 1/c1) gives the sample {:?}, outside [0,1)", lambda, k << 12, k, x), json!({"lambda": lambda, "word": k << 12}));
+                    }
+                }
+                rep.distinct.insert(mix(&[lambda.to_bits(), k, 7]));
+            }
+        }
+        nscr += nb;
+        rep.count("scripted.first_try_boundary_states", nb);
         rep.evaluations += nscr;
         rep.count("scripted.samples", nscr);
         rep.sample(json!({"scripted_words_hex": format!("{:x?}", &words[..6]), "note": "replayed as the first generator outputs, then PRNG"}));
